@@ -181,7 +181,10 @@ def r18_1_cycles(ctx, rid='R18.1'):
         f = fn(P, 'yatiml.loader:Loader.' + entry)
         checks = [c for c in f.calls('__check_no_cycles') if f.live(c)]
         procs = [c for c in f.calls('__process_node') if f.live(c)]
-        ok = bool(checks) and all(any(f.cfg.dominates(f.nid(c), f.nid(p)) for c in checks) for p in procs)
+        ok = bool(checks) and all(any(f.cfg.dominates(f.nid(c), f.nid(p)) for c in checks)
+                                  or (bool(p.args) and isinstance(p.args[0], ast.Name) and f.cfg.must_pass(
+                                      f.cfg.entry, f.nid(p), {f.nid(c) for c in checks} | S.fresh_scalar_assignments(f, p.args[0].id)))
+                                  for p in procs)
         if entry == 'get_node' and not procs:
             continue
         r.check(ok, '%s: the cycle check dominates __process_node' % entry, f.key('cycle-check-first'), f.loc(),
